@@ -237,6 +237,57 @@ pub fn run(op: &str, args: &[String]) -> Option<String> {
             };
             res_xpub(ExtendedPublicKey::from_string(&s).and_then(|x| x.derive(i)))
         }
+        "xprv.history" => {
+            if args.len() != 8 {
+                return bad();
+            }
+            match arg_xprv(args) {
+                Parg::Bad => return bad(),
+                Parg::Invalid => "ERR".into(),
+                Parg::Good(x) => {
+                    let (a, b) = match (arg_str(args, 6), arg_str(args, 7)) {
+                        (Some(a), Some(b)) => (a, b),
+                        _ => return bad(),
+                    };
+                    let st = |r: Result<ExtendedPrivateKey, bsv::BSVErrors>| match r.and_then(|y| y.to_string()) {
+                        Ok(s) => s,
+                        Err(_) => "ERR".to_string(),
+                    };
+                    // several calls on the ONE object, then a sibling object, then the object itself
+                    let r1 = st(x.derive_from_path(&a));
+                    let r2 = st(x.derive_from_path(&b));
+                    let r3 = st(x.derive_from_path(&a));
+                    let r4 = st(x.derive(1).and_then(|y| y.derive_from_path(&a)));
+                    let r5 = st(Ok(x));
+                    format!("OK:{};{};{};{};{}", r1, r2, r3, r4, r5)
+                }
+            }
+        }
+        "xpub.history" => {
+            if args.len() != 7 {
+                return bad();
+            }
+            match arg_xpub(args) {
+                Parg::Bad => return bad(),
+                Parg::Invalid => "ERR".into(),
+                Parg::Good(x) => {
+                    let (a, b) = match (arg_str(args, 5), arg_str(args, 6)) {
+                        (Some(a), Some(b)) => (a, b),
+                        _ => return bad(),
+                    };
+                    let st = |r: Result<ExtendedPublicKey, bsv::BSVErrors>| match r.and_then(|y| y.to_string()) {
+                        Ok(s) => s,
+                        Err(_) => "ERR".to_string(),
+                    };
+                    let r1 = st(x.derive_from_path(&a));
+                    let r2 = st(x.derive_from_path(&b));
+                    let r3 = st(x.derive_from_path(&a));
+                    let r4 = st(x.derive(1).and_then(|y| y.derive_from_path(&a)));
+                    let r5 = st(Ok(x));
+                    format!("OK:{};{};{};{};{}", r1, r2, r3, r4, r5)
+                }
+            }
+        }
         "xprv.from_string" => {
             let s = match arg_str(args, 0) {
                 Some(s) => s,
